@@ -91,7 +91,13 @@ def check_set(ctx, rng, params, nlevels):
             zz = int(z)
             rec.hit('integer-levels')
         try:
-            v = float(T(zz))
+            if rec.evaluations % 10 == 3:
+                # a caller who runs numpy with every floating-point condition raised
+                with np.errstate(all='raise'):
+                    v = float(T(zz))
+                rec.hit('values-computed-with-numpy-errstate-all-raise')
+            else:
+                v = float(T(zz))
         except Exception as exc:  # pylint: disable=broad-except
             desc = core.describe_exception(exc)
             if desc['origin'] == 'harness':
